@@ -4,6 +4,7 @@ mod c23;
 mod codec;
 mod flav;
 mod schemagen;
+mod synth;
 mod typed;
 mod wire;
 
@@ -12,6 +13,19 @@ static A: rv_common::alloc_count::CountingAlloc = rv_common::alloc_count::Counti
 
 fn main() {
     let args = rv_common::parse_args();
+    if args.prop == "__debug_nfl" {
+        use crate::flav::Flav;
+        let mut rng = rv_common::Rng::new(1);
+        for _ in 0..2000 {
+            if let wire::RV::Custom(k, b) = wire::gen_custom(&mut rng, wire::Flavour::Scrypto, 0xc0) {
+                if flav::ScryptoF::custom_from_rv(k, &b).is_none() {
+                    println!("fails: {}", rv_common::hex(&b));
+                    break;
+                }
+            }
+        }
+        return;
+    }
     if args.prop == "__child" {
         typed::child_main(args.extra.first().map(|s| s.as_str()).unwrap_or(""));
     }
